@@ -48,6 +48,10 @@ SCALAR_ATTRS = {"dtype", "kind", "shape", "ndim", "size", "name", "type", "start
 # in-place mutators
 INPLACE_METHODS = {"sort", "fill", "put", "resize", "partition", "itemset", "byteswap", "setflags", "append", "extend",
                    "insert", "remove", "clear", "update", "reverse", "setdefault", "popitem"}
+# NumPy functions (not methods) that write their first argument
+INPLACE_FUNCS = {"np.put", "np.place", "np.putmask", "np.copyto", "np.fill_diagonal", "np.put_along_axis",
+                 "np.random.shuffle", "numpy.put", "numpy.place", "numpy.putmask", "numpy.copyto"}
+COPY_FALSE_MUTATORS = {"np.nan_to_num", "numpy.nan_to_num"}
 CONTAINER_MUTATORS = {"append", "extend", "insert", "remove", "clear", "update", "setdefault", "popitem", "reverse"}
 # zero-copy conversions: result aliases the argument
 ALIAS_CALLS = {"np.asarray", "np.asanyarray", "np.array_split", "pd.Series", "pd.DataFrame", "np.ravel", "np.squeeze",
@@ -268,6 +272,11 @@ class _Walker:
                     r = set()
                     for x in sm.returns:
                         r.add(x if not x.startswith("P:self") else f"S:{c[1]}")
+                    if "cached_property" in props[0].decorators:
+                        # the object computed at the first access is stored on the instance and handed out again
+                        # on every later access: reading it yields grouping-owned state, however fresh it was when built
+                        r.discard(F)
+                        r.add(f"S:{c[1]}")
                     base = frozenset(r) if r else FRESH
                 if len(c) == 2:
                     return base
@@ -361,6 +370,13 @@ class _Walker:
             self.sink(e, f"{meth}(inplace=True)", recv_o)
         if meth in INPLACE_METHODS and isinstance(e.func, ast.Attribute):
             self.sink(e, f"in-place method .{meth}()", recv_o, container=meth in CONTAINER_MUTATORS)
+        # library functions that write their first argument in place
+        if cn in INPLACE_FUNCS and args:
+            self.sink(e, f"{cn} writes its first argument", arg_o[0])
+        copy_kw = next((k for k in e.keywords if k.arg == "copy"), None)
+        if cn in COPY_FALSE_MUTATORS and args and copy_kw is not None and isinstance(copy_kw.value, ast.Constant) \
+                and copy_kw.value.value is False:
+            self.sink(e, f"{cn}(copy=False) rewrites its argument", arg_o[0])
         if cn == "locals" and not args:
             return frozenset(["LOCALS"])
         if meth == "copy" and "LOCALS" in recv_o:
